@@ -46,7 +46,22 @@ class Batch(State):            # ... or empty by __len__
         return self.v % 2
 
 
-TYPES = [A, B, C, D, AA, Flag, Batch]
+class Gen[T](State):           # a generic state: its specialisation takes the defaults from the generic class
+    v: int = 0
+    item: T | None = None
+
+
+GenInt = Gen[int]
+
+
+class Deep(AA):                # defaults inherited over two levels, none of its own
+    pass
+
+
+TYPES = [A, B, C, D, AA, Flag, Batch, GenInt, Deep]
+# which types "need no arguments", and what a default-constructed instance holds - stated here, not asked of the library
+DEFAULTS = {A: dict(v=0), B: dict(v=0), D: dict(v=5), AA: dict(v=0, w=0), Flag: dict(v=0), Batch: dict(v=0),
+            GenInt: dict(v=0, item=None), Deep: dict(v=0, w=0)}
 
 
 class Disp:
@@ -86,10 +101,9 @@ def expected(env, T, default):
             return ("value", frame[T])
     if default is not None:
         return ("value", default)
-    try:
-        return ("equal", T())
-    except Exception:
-        return ("missing-state", None)
+    if T in DEFAULTS:
+        return ("equal", T(**DEFAULTS[T]))
+    return ("missing-state", None)
 
 
 def probe(env, problems, rng, where):
